@@ -120,6 +120,8 @@ func genC13(r *core.Rng, i int) (files map[string]string, prog string, extra []s
 			"DECLARE c CURSOR FOR SELECT id, v FROM t WHERE v > 1 ORDER BY v, id;\nOPEN c;\nVAR @i, @v, @n := 0;\nWHILE @i, @v IN c DO @n := @n + 1; END WHILE;\nCLOSE c;\nPRINT @n;\nSELECT COUNT(*) FROM t;",
 			// a function that fetches from a cursor of the enclosing scope, called once per row by parallel workers
 			"DECLARE c CURSOR FOR SELECT id, v FROM t ORDER BY id;\nOPEN c;\nDECLARE nx FUNCTION () AS BEGIN VAR @a; VAR @b; FETCH c INTO @a, @b; RETURN @a; END;\nSELECT COUNT(nx()), COUNT(DISTINCT nx()) FROM t;\nSELECT id FROM t WHERE nx() IS NULL AND CURSOR c IS NOT IN RANGE;\nCLOSE c;",
+			// prepared statements: the values behind the placeholders are shared by the workers that evaluate the rows
+			"PREPARE p FROM 'SELECT COUNT(*) FROM t WHERE v > ? AND k <> ?';\nEXECUTE p USING 1, 'zz';\nEXECUTE p USING 1 + 1, 'a' || 'b';\nPREPARE q FROM 'SELECT id, v + :inc FROM t WHERE v >= :lo ORDER BY id';\nDECLARE c CURSOR FOR q;\nOPEN c USING 3 AS inc, 2 AS lo;\nVAR @a, @b;\nFETCH c INTO @a, @b;\nCLOSE c;\nEXECUTE q USING 1 AS inc, 0 AS lo;",
 			// a statement failing inside one of several workers
 			"SELECT id, 100 / (v - 5) FROM t;",
 			"SELECT id, (SELECT w FROM u WHERE u.k = t.k) FROM t;",
